@@ -245,6 +245,8 @@ def dispatch(vm, m, callee, args):
         return ret(m, v.f[1].f[0].f[0])
     if re.match(r'^Box::<.*>::new$', c):
         cell = m.alloc(args[0]); return ret(m, Struct((Struct((Ref(cell),)), UNIT), 'Box'))
+    out = _hashmap(vm, m, c, args)
+    if out is not NotImplemented: return out
     # ---- Vec / slices ---------------------------------------------------------------------------------
     out = _vec(vm, m, c, args)
     if out is not NotImplemented: return out
@@ -281,6 +283,49 @@ def _opt_combinator(vm, m, n, rv, args):
         return vm.call_closure(m, args[1], [rv.f[0]])
     raise Unmodelled('Option combinator ' + n)
 
+def _hm_pairs(vm, m, r):
+    v = deref_val(vm, m, r)
+    if not (isinstance(v, Struct) and v.ty == 'HashMap'): raise VMError('not a HashMap: %r' % (v,))
+    return list(v.f[0].items)
+def _key(vm, m, k):
+    k = deref_val(vm, m, k)
+    if not isinstance(k, Str): raise Unmodelled('non-string HashMap key %r' % (k,))
+    return k.s
+def _hashmap(vm, m, c, args):
+    """std::collections::HashMap with string keys: Struct((Seq of (key, value) pairs,), 'HashMap'), iteration in insertion order"""
+    mm = re.match(r'^HashMap::<.*?>::(\w+)(::<.*>)?$', c)
+    if mm:
+        n = mm.group(1)
+        if n == 'new' or n == 'with_capacity': return ret(m, Struct((Seq(()),), 'HashMap'))
+        r = args[0]
+        if n == 'insert':
+            pairs = _hm_pairs(vm, m, r); k = _key(vm, m, args[1]); old = NONE()
+            for i, p in enumerate(pairs):
+                if p.f[0].s == k: old = SOME(p.f[1]); pairs[i] = Struct((Str(k), args[2])); break
+            else: pairs.append(Struct((Str(k), args[2])))
+            vm.write_at(m, r.cell, list(r.path), Struct((Seq(pairs),), 'HashMap')); return ret(m, old)
+        if n in ('get_mut', 'get'):
+            pairs = _hm_pairs(vm, m, r); k = _key(vm, m, args[1])
+            while isinstance(vm.read_at(m, r.cell, r.path), Ref): r = vm.read_at(m, r.cell, r.path)
+            for i, p in enumerate(pairs):
+                if p.f[0].s == k: return ret(m, SOME(Ref(r.cell, r.path + (('f', 0), ('i', i), ('f', 1)))))
+            return ret(m, NONE())
+        if n == 'contains_key':
+            return ret(m, any(p.f[0].s == _key(vm, m, args[1]) for p in _hm_pairs(vm, m, r)))
+        if n == 'len': return ret(m, len(_hm_pairs(vm, m, r)))
+        raise Unmodelled('HashMap method ' + c)
+    if re.match(r'^<HashMap<.*> as (std::ops::)?Index<.*>>::index$', c):
+        r = args[0]; pairs = _hm_pairs(vm, m, r); k = _key(vm, m, args[1])
+        while isinstance(vm.read_at(m, r.cell, r.path), Ref): r = vm.read_at(m, r.cell, r.path)
+        for i, p in enumerate(pairs):
+            if p.f[0].s == k: return ret(m, Ref(r.cell, r.path + (('f', 0), ('i', i), ('f', 1))))
+        return panic(m, ('HashMap index: key not found', k, None))
+    if re.match(r'^<HashMap<.*> as Clone>::clone$', c): return ret(m, deref_val(vm, m, args[0]))
+    if re.match(r'^<HashMap<.*> as IntoIterator>::into_iter$', c):
+        from .vm import Iter
+        return ret(m, Iter(_hm_pairs(vm, m, args[0])))
+    return NotImplemented
+
 def _vec(vm, m, c, args):
     A = vm.alg
     if re.match(r'^Vec::<.*>::new$', c) or re.match(r'^Vec::<.*>::with_capacity$', c): return ret(m, Seq(()))
@@ -308,14 +353,37 @@ def _vec(vm, m, c, args):
     if re.match(r'^<Vec<.*> as Deref(Mut)?>::deref(_mut)?$', c): return ret(m, as_slice(vm, m, args[0]))
     if re.match(r'^<Vec<.*> as Clone>::clone$', c) or re.match(r'^<\[.*\] as ToOwned>::to_owned$', c) or re.match(r'^(core::|std::)?slice::<impl \[.*\]>::(to_vec|into_vec)(::<.*>)?$', c):
         return ret(m, Seq(slice_items(vm, m, args[0])))
-    if re.match(r'^<Vec<.*> as Extend<.*>>::extend::<Vec<.*>>$', c):
-        r = args[0]; s = vm.read_at(m, r.cell, r.path); vm.write_at(m, r.cell, list(r.path), Seq(s.items + tuple(args[1].items))); return ret(m, UNIT)
+    if re.match(r'^<Vec<.*> as Extend<.*>>::extend::<', c):
+        from .vm import Iter
+        r = args[0]; s = vm.read_at(m, r.cell, r.path); src = args[1]
+        if isinstance(src, Seq): new = list(src.items)
+        elif isinstance(src, Iter):
+            from . import iters
+            new = []
+            for k in range(len(src.items)):
+                outs = iters.pull(vm, m, src, k)
+                if len(outs) != 1 or outs[0][1] != 'ret': raise Unmodelled('Vec::extend from a forking iterator')
+                new.append(outs[0][2])
+        else: raise Unmodelled('Vec::extend from %r' % (src,))
+        vm.write_at(m, r.cell, list(r.path), Seq(s.items + tuple(new))); return ret(m, UNIT)
     if re.match(r'^<Vec<.*> as Index<usize>>::index$', c) or re.match(r'^<Vec<.*> as IndexMut<usize>>::index_mut$', c) \
             or re.match(r'^<\[.*\] as Index(Mut)?<usize>>::index(_mut)?$', c):
         refs = slice_refs(vm, m, args[0]); i = args[1]
         if is_sym(i): raise Unmodelled('symbolic Vec index')
         if i >= len(refs): return panic(m, ('index out of bounds', (i, len(refs)), None))
         return ret(m, refs[i])
+    mm = re.match(r'^<(?:\[.*\]|Vec<.*>) as (?:std::ops::)?Index(?:Mut)?<(?:std::ops::)?Range(From|To|Full|Inclusive|)<usize>>>::index(?:_mut)?$', c)
+    if mm:
+        sl = as_slice(vm, m, args[0]); kind = mm.group(1); r = args[1]
+        if sl.shape is not None: raise Unmodelled('range index of a shaped slice')
+        lo, hi = 0, sl.count
+        if kind == 'From': lo = r.f[0]
+        elif kind == 'To': hi = r.f[0]
+        elif kind == '': lo, hi = r.f[0], r.f[1]
+        elif kind == 'Inclusive': raise Unmodelled('RangeInclusive slice index')
+        if is_sym(lo) or is_sym(hi): raise Unmodelled('symbolic slice range')
+        if lo > hi or hi > sl.count: return panic(m, ('slice index out of range', (lo, hi, sl.count), None))
+        return ret(m, SliceRef(sl.cell, sl.path, sl.start + lo, hi - lo))
     mm = re.match(r'^(?:core::|std::)?slice::<impl \[.*?\]>::(\w+)(::<.*>)?$', c)
     if mm:
         n = mm.group(1)
